@@ -48,6 +48,7 @@ def setup(rep, tier):
     rep.minimum('R03.2', 1)
     rep.minimum('R03.3', 9)
     rep.minimum('R03.5', 12)
+    rep.minimum('R03.6', 6)
     rep.minimum('R03.4', 2)
     rep.trusted.append('doc/draft-ietf-codec-opus.xml (RFC 6716 source text) as the table oracle')
 
@@ -481,6 +482,46 @@ def r03_5(rep, prog, tables):
             rep.unresolved('R03.5', 'cannot resolve the NLSF codebook selected for fs_kHz=%d: %s' % (fs, objs), f.where())
 
 
+PCM_TYPES = ('opus_res *', 'opus_val16 *', 'opus_val32 *', 'opus_int16 *', 'float *', 'celt_sig *', 'const opus_res *')
+
+
+def r03_6(rep, prog):
+    """channel-interleave discipline of the decoder's frame assembly: every
+    pointer offset into an interleaved PCM buffer (pcm, transition and
+    redundancy scratch) in opus_decode_frame / opus_decode_native is a multiple
+    of the decoder's channel count - a bare sample offset would cross-fade or
+    place stereo audio at half the intended time"""
+    n = 0
+    for fname in ('opus_decode_frame', 'opus_decode_native'):
+        f = prog.fn(fname)
+        rep.functions.add(fname)
+        pcmvars = {('param', i) for i, q in enumerate(f.params) if q['type'] in PCM_TYPES and q['name'].startswith('pcm')}
+        for l in f.locals.values():
+            if (l.get('type') in PCM_TYPES or str(l.get('type', '')).startswith(('opus_res[', 'opus_val16[', 'opus_int16['))) and (l['name'].startswith('pcm') or l['name'].startswith('redundant_audio')):
+                pcmvars.add(('local', l['id']))
+        seen = set()
+        for node in f.all_nodes():
+            if node[0] == 'bin' and node[1] in ('+', '-') and sx.A(node).get('ptr'):
+                l, r = sx.strip(node[2]), sx.strip(node[3])
+                base, off = (l, r) if sx.key(l) in pcmvars else ((r, l) if sx.key(r) in pcmvars else (None, None))
+                if base is None:
+                    continue
+                k = sx.key(node)
+                if k in seen:
+                    continue
+                seen.add(k)
+                n += 1
+                where = '%s:%s' % (f.file, sx.line(node) or f.line)
+                inst = '%s:%s offset `%s` into interleaved %s is a multiple of st->channels' % (prog.config, fname, sx.show(off)[:40], sx.show(base))
+                ok = sx.int_val(off) == 0 or (sx.kind(off) == 'bin' and off[1] == '*' and any(sx.kind(sx.strip(x)) == 'field' and sx.strip(x)[3] == 'channels' and sx.strip(x)[2] == 'OpusDecoder' for x in (off[2], off[3])))
+                if ok:
+                    rep.holds('R03.6', inst, where, None)
+                else:
+                    rep.violated('R03.6', inst, where, 'offset is counted in samples of one channel, the buffer is interleaved (st->channels values per sample time)', key='%s:stride:%s' % (fname, sx.show(node)[:50]))
+    if n < 6:
+        rep.unresolved('R03.6', 'only %d PCM pointer offsets found in the decoder frame assembly' % n)
+
+
 def check(rep, prog, tier):
     tables, digest = rfc.load()
     rep.extra['rfc_tables_parsed'] = len(tables)
@@ -489,6 +530,7 @@ def check(rep, prog, tier):
     r03_2(rep, prog)
     r03_34(rep, prog, cmp_)
     r03_5(rep, prog, tables)
+    r03_6(rep, prog)
     rep.extra['programs'] = rep.extra.get('programs', 0) + cmp_.n
     rep.extra['disagreements_checked'] = rep.extra.get('disagreements_checked', 0) + cmp_.bad
     rep.extra.setdefault('translation_samples', []).extend(cmp_.samples if prog.config == 'float' else [])
